@@ -89,12 +89,21 @@ NAME_SCOPES2 = {
     "compiled": "@pyscript_compile\ndef pv__f():\n    return {n}\npv__x = pv__f()",
     "after_lambda": "pv__l = lambda: 1\npv__x = {n}",
     "after_lambda_func": "pv__l = lambda: 1\ndef pv__f():\n    return {n}\npv__x = pv__f()",
+    # source text run with explicit namespaces ({q} = repr of "pv__x = <name>", {e} = repr of "<name>", {k} = repr of the name)
+    "exec_g": "pv__d = {{}}\nexec({q}, pv__d)\npv__x = pv__d['pv__x']",
+    "exec_gs": "pv__d = {{{k}: pv__sent}}\nexec({q}, pv__d)\npv__x = pv__d['pv__x']",
+    "eval_g": "pv__x = eval({e}, {{}})",
+    "exec_gl": "pv__d = {{}}\npv__l = {{}}\nexec({q}, pv__d, pv__l)\npv__x = pv__l['pv__x']",
+    "exec_gls": "pv__d = {{{k}: pv__sent}}\npv__l = {{}}\nexec({q}, pv__d, pv__l)\npv__x = pv__l['pv__x']",
+    "func_eval_g": "def pv__f():\n    return eval({e}, {{}})\npv__x = pv__f()",
+    "func_exec_g": "def pv__f():\n    pv__d = {{}}\n    exec({q}, pv__d)\n    return pv__d['pv__x']\npv__x = pv__f()",
 }
+EXPLICIT_NS_SCOPES = ["exec_g", "eval_g", "exec_gl", "func_eval_g", "func_exec_g"]
 
 
 def name_program(scope, name):
     if scope in NAME_SCOPES2:
-        return NAME_SCOPES2[scope].format(n=name)
+        return NAME_SCOPES2[scope].format(n=name, q=repr(f"pv__x = {name}"), e=repr(name), k=repr(name))
     if scope == "module":
         return f"pv__x = {name}"
     if scope == "func":
@@ -595,12 +604,79 @@ async def op_optflip(req):
     return out
 
 
+def late_module_src(name):
+    return f"VALUE = 'late:{name}'\n\ndef helper():\n    return VALUE\n"
+
+
+async def op_late(req):
+    """installation histories: an allowed module is missing when first imported, gets installed (a directory on sys.path stands
+    for site-packages), and is imported again - all in ONE HomeAssistant instance"""
+    import importlib
+    import os
+    import shutil
+    import tempfile
+
+    from pytest_homeassistant_custom_component.common import async_test_home_assistant
+
+    from custom_components.pyscript.const import ALLOWED_IMPORTS
+    from vh.hassenv import interp_env_setup, new_interp, reset_pyscript_class_state
+
+    out = []
+    tmp = tempfile.mkdtemp(prefix="pv_c17_", dir="/var/tmp")
+    site = tempfile.mkdtemp(prefix="pv_c17site_", dir="/var/tmp")
+    sys.path.insert(0, site)
+    try:
+        async with async_test_home_assistant(config_dir=tmp) as hass:
+            reset_pyscript_class_state()
+            interp_env_setup(hass, allow_all_imports=False)
+            pdir = hass.config.path("pyscript")
+            for case in req["cases"]:
+                mod = case["module"]
+                top = mod.split(".")[0]
+                if importlib.util.find_spec(top) is not None:
+                    raise RuntimeError(f"late module {mod} is already installed")
+                steps = []
+                for step in case["steps"]:
+                    if step["op"] == "install":
+                        parts = mod.split(".")
+                        d = site
+                        for p in parts[:-1]:
+                            d = os.path.join(d, p)
+                            os.makedirs(d, exist_ok=True)
+                            with open(os.path.join(d, "__init__.py"), "w", encoding="utf-8") as f:
+                                f.write("")
+                        with open(os.path.join(d, parts[-1] + ".py"), "w", encoding="utf-8") as f:
+                            f.write(late_module_src(mod))
+                        importlib.invalidate_caches()
+                        continue
+                    set_allow_all(hass, case["aa"])
+                    a, _gc = new_interp("pvi")
+                    c = {"aa": case["aa"], "stmt": step["stmt"], "via": step["via"], "sent": False}
+                    obs = await run_import_case(c, a, pdir, set(req["safe"]) | {mod, top}, set(ALLOWED_IMPORTS))
+                    obs["rel"] = None
+                    steps.append(obs)
+                out.append({"steps": steps})
+                # uninstall again
+                for k in [k for k in sys.modules if k == top or k.startswith(top + ".")]:
+                    del sys.modules[k]
+                for entry in os.listdir(site):
+                    path = os.path.join(site, entry)
+                    shutil.rmtree(path, ignore_errors=True) if os.path.isdir(path) else os.remove(path)
+                importlib.invalidate_caches()
+            await hass.async_stop(force=True)
+    finally:
+        sys.path.remove(site)
+        shutil.rmtree(tmp, ignore_errors=True)
+        shutil.rmtree(site, ignore_errors=True)
+    return out
+
+
 def main():
     from vh.hassenv import run_virtual
 
     req = json.loads(sys.stdin.read())
     op = {"imports": op_imports, "shadow": op_shadow, "names": op_names, "logcall": op_logcall,
-          "trignames": op_trignames, "optflip": op_optflip}[req["op"]]
+          "trignames": op_trignames, "optflip": op_optflip, "late": op_late}[req["op"]]
     real_stdout = sys.stdout
     sys.stdout = sys.stderr  # anything the environment prints is log, not result
     try:
